@@ -37,7 +37,7 @@ pub struct C20 {
 
 pub fn bin_path() -> std::path::PathBuf {
     let profile = if cfg!(debug_assertions) { "debug" } else { "release" };
-    std::path::PathBuf::from("/verif/target/rrss-bin").join(profile).join("rrss")
+    std::path::PathBuf::from(crate::engine::orch::verif_dir()).join("target/rrss-bin").join(profile).join("rrss")
 }
 
 fn corpus_programs(tier: Tier) -> (Vec<String>, usize) {
@@ -91,7 +91,7 @@ fn build(tier: Tier) -> Box<dyn Check> {
     let general = progs.product(&Space::of(modes), |p, m| (p, m));
     let dicts: Space<usize> = Space::of((first_dict..n).collect());
     let seeded = dicts.product(&Space::of((0..8u64).map(Mode::Seeded).collect()), |p, m| (p, m));
-    let dir = std::path::PathBuf::from("/verif/target/tmp").join(format!("c20-{}", std::process::id()));
+    let dir = std::path::PathBuf::from(crate::engine::orch::verif_dir()).join("target/tmp").join(format!("c20-{}", std::process::id()));
     Box::new(C20 {
         programs: Rc::new(programs),
         cases: Space::union(vec![general, seeded]),
@@ -100,10 +100,10 @@ fn build(tier: Tier) -> Box<dyn Check> {
             ("missing file argument (exec)", vec!["exec"], true),
             ("missing file argument (lint)", vec!["lint"], true),
             ("missing file argument (parse)", vec!["parse"], true),
-            ("non-existent file (exec)", vec!["exec", "/verif/target/tmp/does-not-exist.rock"], true),
-            ("non-existent file (lint)", vec!["lint", "/verif/target/tmp/does-not-exist.rock"], true),
-            ("non-existent file (parse)", vec!["parse", "/verif/target/tmp/does-not-exist.rock"], true),
-            ("directory as file", vec!["exec", "/verif/target"], true),
+            ("non-existent file (exec)", vec!["exec", "/nonexistent-dir/does-not-exist.rock"], true),
+            ("non-existent file (lint)", vec!["lint", "/nonexistent-dir/does-not-exist.rock"], true),
+            ("non-existent file (parse)", vec!["parse", "/nonexistent-dir/does-not-exist.rock"], true),
+            ("directory as file", vec!["exec", "/"], true),
             ("unknown option", vec!["--frobnicate"], true),
             ("no arguments at all", vec![], false),
         ],
@@ -129,7 +129,7 @@ pub fn spawn(args: &[&str], stdin: &[u8], merged: bool, seed: Option<u64>) -> st
     };
     cmd.args(args).env("NO_COLOR", "1").env_remove("CLICOLOR_FORCE").stdin(Stdio::piped()).stdout(Stdio::piped()).stderr(Stdio::piped());
     if let Some(s) = seed {
-        cmd.env("LD_PRELOAD", "/verif/target/libgrshim.so").env("GRSHIM_SEED", s.to_string());
+        cmd.env("LD_PRELOAD", format!("{}/target/libgrshim.so", crate::engine::orch::verif_dir())).env("GRSHIM_SEED", s.to_string());
     }
     let mut child = cmd.spawn()?;
     {
